@@ -39,6 +39,7 @@ type fsModel struct {
 	limits    map[string]int // path -> max file size (disk-full model)
 	failNext  map[string]int // op kind -> countdown (1 = fail the next one)
 	crashNote []string
+	crashPlan map[string]any
 	openCount int
 }
 
@@ -619,6 +620,11 @@ func registerOSIntrinsics(e *Engine) {
 // ---------- harness FS API ----------
 
 func registerFSAPI(e *Engine, m func(string, intrinsicFn)) {
+	m("Snapshot", func(fr *frame, args []value) value {
+		fs := hRun(args).fsInit()
+		fs.step++
+		return nil
+	})
 	m("Checkpoint", func(fr *frame, args []value) value {
 		fs := hRun(args).fsInit()
 		fs.step++
@@ -715,15 +721,73 @@ func (fs *fsModel) crash(r *Run, p string) bool {
 	if lastSync >= n {
 		// everything is durable: crash after the last op
 		fs.crashNote = append(fs.crashNote, fmt.Sprintf("crash after all %d ops (all synced)", n))
+		fs.crashPlan = map[string]any{"base": fs.step - 1, "next": fs.step - 1, "ranges": [][]int{}}
 		fs.rebuild(n, 0)
 		return false
 	}
 	k := lastSync + r.choose(n-lastSync+1, "crashpoint")
 	torn := 0
 	if k < n && fs.log[k].kind == "write" && len(fs.log[k].data) > 1 {
-		torn = r.choose(len(fs.log[k].data), "torn")
+		// torn prefixes that leave the file byte-identical to an earlier candidate are the same
+		// crash image: keep one representative per distinct image
+		op := fs.log[k]
+		var cur []value
+		for i := 0; i < k; i++ {
+			if o := fs.log[i]; o.path == op.path {
+				switch o.kind {
+				case "create":
+					cur = nil
+				case "truncate":
+					if o.size < len(cur) {
+						cur = cur[:o.size:o.size]
+					}
+				case "write":
+					for len(cur) < o.off {
+						cur = append(cur, BV(8, 0))
+					}
+					for j, b := range o.data {
+						if o.off+j < len(cur) {
+							cur[o.off+j] = b
+						} else {
+							cur = append(cur, b)
+						}
+					}
+				}
+			}
+		}
+		cands := []int{0}
+		for j := 1; j < len(op.data); j++ {
+			// prefix j differs from prefix j-1 iff byte j-1 changes the file
+			pos := op.off + j - 1
+			same := pos < len(cur) && sameByte(cur[pos], op.data[j-1])
+			if !same {
+				cands = append(cands, j)
+			}
+		}
+		torn = cands[r.choose(len(cands), "torn")]
 	}
 	fs.crashNote = append(fs.crashNote, fmt.Sprintf("crash after op %d of %d (last sync at %d), torn bytes of next write: %d", k, n, lastSync, torn))
+	// plan for the native reconstruction from harness snapshots (verifrt.nativeCrash)
+	plan := map[string]any{"base": fs.step, "next": fs.step, "ranges": [][]int{}}
+	if k < n {
+		s := fs.log[k].step
+		var ranges [][]int
+		for i, op := range fs.log {
+			if op.step != s || op.kind != "write" || op.path != p {
+				continue
+			}
+			if i < k {
+				ranges = append(ranges, []int{op.off, len(op.data)})
+			} else if i == k && torn > 0 {
+				ranges = append(ranges, []int{op.off, torn})
+			}
+		}
+		if ranges == nil {
+			ranges = [][]int{}
+		}
+		plan = map[string]any{"base": s - 1, "next": s, "ranges": ranges}
+	}
+	fs.crashPlan = plan
 	r.inputs = append(r.inputs, inputRec{Fn: "CrashK", Name: "crash.k", IsConc: true, Conc: uint64(k)}, inputRec{Fn: "CrashTorn", Name: "crash.torn", IsConc: true, Conc: uint64(torn)})
 	fs.rebuild(k, torn)
 	return true
@@ -788,4 +852,12 @@ func (fs *fsModel) rebuild(k, torn int) {
 		fs.logOp(fsOp{kind: "write", path: p, off: 0, data: append([]value(nil), files[p].data...)})
 	}
 	fs.logOp(fsOp{kind: "sync"})
+}
+
+func sameByte(a, b value) bool {
+	x, y := a.(*Term), b.(*Term)
+	if x == y {
+		return true
+	}
+	return x.IsConst() && y.IsConst() && x.K == y.K
 }
